@@ -153,8 +153,8 @@ def body (C : Consts α) (o : Opts α) (te tEps : α) (s : LoopState α) (r : An
       let log' := if fin then s.log else Event.output t' :: s.log
       .inr ({ s with t := t', dt := dt', period := s.period + 1, dt_1 := s.dt, log := log' }, fin)
     else
-      let sub' := s.subStep + 1
-      if (sub' : Int) = o.mSub then .inl (.maxSub { s with subStep := sub' })
+      let sub' : Nat := s.subStep + 1
+      if Int.ofNat sub' = o.mSub then .inl (.maxSub { s with subStep := sub' })
       else
         let rdt :=
           if o.dyn then
@@ -180,7 +180,7 @@ def body (C : Consts α) (o : Opts α) (te tEps : α) (s : LoopState α) (r : An
 /-- the `while ((!end) && (subStep != o.mSubSteps))` loop over the script of oracle answers -/
 def loop (C : Consts α) (o : Opts α) (te tEps : α) : List (Answer α) → LoopState α → Outcome α
   | script, s =>
-    if (s.subStep : Int) = o.mSub then .ended s
+    if Int.ofNat s.subStep = o.mSub then .ended s
     else
       match script with
       | [] => .exhausted s
